@@ -35,6 +35,9 @@ type goroutine struct {
 
 var fset = token.NewFileSet()
 
+// main.go httpStart (framing.go writeServer); also written to the JSON side file for the harness
+var genServerReadTimeoutMs, genServerReadHeaderTimeoutMs int64
+
 // all function declarations under writer/, by bare name
 var decls = map[string][]*ast.FuncDecl{}
 
@@ -463,7 +466,7 @@ func main() {
 	}
 	var b strings.Builder
 	b.WriteString("(* GENERATED by translate/gen_goroutines_writer from " + "$VERIF_REPO/writer" + " -- do not edit, not committed *)\n")
-	b.WriteString("From Coq Require Import List String ZArith.\nFrom Qryn Require Import model.IngestRobust model.IngestPipe.\nImport ListNotations.\nOpen Scope string_scope.\nOpen Scope Z_scope.\n\n")
+	b.WriteString("From Coq Require Import List String ZArith.\nFrom Qryn Require Import model.IngestRobust model.IngestPipe model.IngestFraming.\nImport ListNotations.\nOpen Scope string_scope.\nOpen Scope Z_scope.\n\n")
 	b.WriteString("Definition gen_goroutines : list goroutine := [\n")
 	for i, g := range gs {
 		sep := ";"
@@ -508,8 +511,9 @@ func main() {
 	writePipe(&b, root, files, parsed)
 	writeSites(&b, root, files, parsed)
 	writeEntries(&b, root, files, parsed)
+	writeFraming(&b, root, files, parsed)
 	// side file for the harness: the literal texts that status-deciding code compares error texts with
-	if js, err := json.Marshal(map[string]interface{}{"phrases": phrases}); err == nil {
+	if js, err := json.Marshal(map[string]interface{}{"phrases": phrases, "server_read_timeout_ms": genServerReadTimeoutMs, "server_read_header_timeout_ms": genServerReadHeaderTimeoutMs}); err == nil {
 		os.WriteFile(strings.TrimSuffix(outPath, ".v")+".json", js, 0644)
 	}
 	tmp := outPath + ".tmp"
